@@ -229,6 +229,21 @@ func c17Exit(c *core.Ctx) {
 			okRet = false
 		}
 	}
+	// every certificate the flow builds went through the limiter
+	if gp := c.MustFn(rule, "aggsender/flows", "baseFlow", "GetCertificateBuildParamsInternal"); gp != nil {
+		sg := core.NewSymx()
+		okAll, nOK := true, 0
+		for _, rc := range core.ReturnCases(gp) {
+			if len(rc.Values) != 2 || !isNilConst(rc.Values[1]) {
+				continue
+			}
+			nOK++
+			if t := sg.Of(rc.Values[0]).String(); !strings.HasPrefix(t, "(*aggsender/flows.baseFlow).limitCertSize(") || !strings.HasSuffix(t, "#0") {
+				okAll = false
+			}
+		}
+		c.Decide(okAll && nOK > 0, rule, "flows.(*baseFlow).GetCertificateBuildParamsInternal#always-limited", gp.Pos(), "every successful result is what limitCertSize returned (retries included)")
+	}
 	c.Decide(okRet, rule, "flows.(*baseFlow).limitCertSize#exit", fn.Pos(), "a certificate is returned only when no limit is set, it fits, or it is down to one block")
 	// a Range error aborts
 	nilE := core.NilEdgesRes(fn, core.ErrValueOf(rng), true)
@@ -354,7 +369,7 @@ func init() {
 			{ID: "C17-filter", Floor: 13, Run: c17Filter, Text: "[ORD]-style exact comparison analysis of the Range filters and precondition; literal field map"},
 			{ID: "C17-first", Floor: 3, Run: c17First, Text: "[PROV] every cut keeps the first block"},
 			{ID: "C17-gap", Floor: 3, Run: c17Gap, Text: "structure of the gap test: no wrapping arithmetic in conditions; saturating predecessor; empty iff touching (gap values not decided)"},
-			{ID: "C17-exit", Floor: 7, Run: c17Exit, Text: "[DOM] shrink step, loop variable, exit conditions; last-block clamp"},
+			{ID: "C17-exit", Floor: 8, Run: c17Exit, Text: "[DOM] shrink step, loop variable, exit conditions; last-block clamp"},
 		},
 	})
 }
